@@ -1,7 +1,7 @@
 (* Props_C19.v — property theorems for C19 (only statements closed by [exact]). *)
 From Coq Require Import Reals ZArith.
 From Coquelicot Require Import Coquelicot.
-From HolpyV Require Import IntDeriv.
+From HolpyV Require Import IntDeriv TrigReduce TrigReduceSound.
 
 (* Symbolic differentiation (model of integral/rules.py deriv on the elementary
    fragment: variable, rational constants, + - unary minus * / natural powers,
@@ -20,3 +20,37 @@ Print Assumptions C19_deriv_correct.
 
 Example C19_example : deriv (EMul EVar (ESin EVar)) = EAdd (EMul EVar (EMul (ECos EVar) c1)) (EMul c1 (ESin EVar)).
 Proof. reflexivity. Qed.
+
+(* Reduction of a constant trigonometric argument (c / d) * pi modulo 2 * pi (poly.to_const_poly):
+   on the numerator over a positive denominator d, the reduction subtracts an even multiple of d
+   (a multiple of 2 * pi), lands in (-d, d] (the argument in (-pi, pi]) and is idempotent.  As the
+   code stood before commit 5561da5 (no final step from -pi to pi) it was not idempotent. *)
+Theorem C19_trig_reduce_period : forall c d, exists k, reduce c d = (c - 2 * k * d)%Z.
+Proof. exact reduce_period. Qed.
+Print Assumptions C19_trig_reduce_period.
+
+Theorem C19_trig_reduce_range : forall c d, (0 < d)%Z -> (- d < reduce c d <= d)%Z.
+Proof. exact reduce_range. Qed.
+Print Assumptions C19_trig_reduce_range.
+
+Theorem C19_trig_reduce_idempotent : forall c d, (0 < d)%Z -> reduce (reduce c d) d = reduce c d.
+Proof. exact reduce_idempotent. Qed.
+Print Assumptions C19_trig_reduce_idempotent.
+
+(* the function as implemented: a negative multiple of pi is left alone (its printed form matches
+   neither pattern), -pi becomes pi *)
+Theorem C19_trig_treduce_period : forall c d, exists k, treduce c d = (c - 2 * k * d)%Z.
+Proof. exact treduce_period. Qed.
+Print Assumptions C19_trig_treduce_period.
+
+Theorem C19_trig_treduce_idempotent : forall c d, (0 < d)%Z -> treduce (treduce c d) d = treduce c d.
+Proof. exact treduce_idempotent. Qed.
+Print Assumptions C19_trig_treduce_idempotent.
+
+Theorem C19_trig_reduce_historical_refuted :
+  exists c d, (0 < d)%Z /\ reduce_raw c d = (- d)%Z /\ reduce (reduce_raw c d) d <> reduce_raw c d.
+Proof. exact reduce_raw_not_idempotent. Qed.
+Print Assumptions C19_trig_reduce_historical_refuted.
+
+Example C19_trig_reduce_example : reduce 7 2 = (-1)%Z /\ reduce 5 1 = 1%Z /\ reduce (-7) 4 = 1%Z.
+Proof. vm_compute. repeat split. Qed.
